@@ -176,20 +176,17 @@ theorem pAttributeSet_spec (ts : List Tok) : Res (pAttributeSet ts) (OptLt ts) :
 def LitsNE (ts : List Tok) : Prop := ∀ t ∈ ts, t.tok ≠ .literal []
 theorem LitsNE.suffix {r ts : List Tok} (h : LitsNE ts) (hs : r <:+ ts) : LitsNE r := fun t ht => h t (hs.subset ht)
 
-theorem isCapitalizedLiteral_spec (t : Tok) (h : t.tok ≠ .literal []) : Res (isCapitalizedLiteral t) (fun _ => True) := by
+theorem isCapitalizedLiteral_spec (t : Tok) : Res (isCapitalizedLiteral t) (fun _ => True) := by
   unfold isCapitalizedLiteral
-  split
-  · rename_i heq; exact absurd heq h
-  · trivial
-  · trivial
+  split <;> trivial
 
-theorem jsxNameLoop_spec : ∀ (fuel : Nat) (ts acc : List Tok), ts.length < fuel → LitsNE ts →
+theorem jsxNameLoop_spec : ∀ (fuel : Nat) (ts acc : List Tok), ts.length < fuel →
     Res (jsxNameLoop fuel ts acc) (fun r => r.2 <:+ ts) := by
   intro fuel
   induction fuel with
   | zero => intro ts acc h; omega
   | succ f ih =>
-    intro ts acc h hl
+    intro ts acc h
     cases ts with
     | nil => exact Res.ok (List.suffix_refl _)
     | cons d ts' =>
@@ -197,11 +194,11 @@ theorem jsxNameLoop_spec : ∀ (fuel : Nat) (ts acc : List Tok), ts.length < fue
       split
       · split
         · rename_i l ts2
-          apply Res.bind (isCapitalizedLiteral_spec l (hl l (by simp)))
+          apply Res.bind (isCapitalizedLiteral_spec l)
           intro b _
           split
           · have hs : ts2 <:+ d :: l :: ts2 := (List.suffix_cons _ _).trans (List.suffix_cons _ _)
-            exact (ih ts2 _ (by simp at h ⊢; omega) (hl.suffix hs)).mono (fun x hx => hx.trans hs)
+            exact (ih ts2 _ (by simp at h ⊢; omega)).mono (fun x hx => hx.trans hs)
           · exact Res.pure (List.suffix_refl _)
         · exact Res.pure (List.suffix_refl _)
       · exact Res.pure (List.suffix_refl _)
@@ -211,7 +208,7 @@ theorem nameLoop_spec (ts acc : List Tok) :
   fun_induction nameLoop ts acc <;> simp_all [List.suffix_refl] <;>
     (rename_i ih; exact ⟨ih.1.trans (List.suffix_cons _ _), by omega⟩)
 
-theorem pElementName_spec (jsx : Bool) (ts : List Tok) (hl : LitsNE ts) :
+theorem pElementName_spec (jsx : Bool) (ts : List Tok) :
     Res (pElementName jsx ts) (fun nr => nr.2 <:+ ts ∧ (nr.1.isEmpty = false → Lt nr.2 ts)) := by
   have key : ∀ (pre r : List Tok), r <:+ ts → (pre.isEmpty = false → Lt r ts) →
       (nameLoop r []).2 <:+ ts ∧ ((pre ++ (nameLoop r []).1).isEmpty = false → Lt (nameLoop r []).2 ts) := by
@@ -236,11 +233,11 @@ theorem pElementName_spec (jsx : Bool) (ts : List Tok) (hl : LitsNE ts) :
     | cons t ts1 =>
       simp only
       split
-      · apply Res.bind (isCapitalizedLiteral_spec t (hl t (by simp)))
+      · apply Res.bind (isCapitalizedLiteral_spec t)
         intro b _
         split
         · have hs : ts1 <:+ t :: ts1 := List.suffix_cons _ _
-          exact (jsxNameLoop_spec _ ts1 [t] (by omega) (hl.suffix hs)).mono
+          exact (jsxNameLoop_spec _ ts1 [t] (by omega)).mono
             (fun x hx => ⟨hx.trans hs, fun _ => Lt.le_trans hx (Lt.of_cons _ _)⟩)
         · exact Res.pure ⟨List.suffix_refl _, by simp⟩
       · exact Res.pure ⟨List.suffix_refl _, by simp⟩
@@ -314,8 +311,8 @@ theorem optRepeater_spec (ts : List Tok) : (optRepeater ts).2 <:+ ts := by
 
 /-- both mutual functions, by induction on the fuel -/
 theorem pItem_pStatements_spec (jsx : Bool) : ∀ (fuel : Nat),
-    (∀ ts, 2 * ts.length ≤ fuel → 1 ≤ fuel → LitsNE ts → Res (pItem jsx fuel ts) (OptLt ts)) ∧
-    (∀ ts cur above, 2 * ts.length + 1 ≤ fuel → LitsNE ts →
+    (∀ ts, 2 * ts.length ≤ fuel → 1 ≤ fuel → Res (pItem jsx fuel ts) (OptLt ts)) ∧
+    (∀ ts cur above, 2 * ts.length + 1 ≤ fuel →
       Res (pStatements jsx fuel ts cur above) (fun r => r.2 <:+ ts)) := by
   intro fuel
   induction fuel with
@@ -323,9 +320,9 @@ theorem pItem_pStatements_spec (jsx : Bool) : ∀ (fuel : Nat),
   | succ f ih =>
     obtain ⟨ihI, ihS⟩ := ih
     constructor
-    · intro ts hf _ hl
+    · intro ts hf _
       unfold pItem
-      apply Res.bind (pElementName_spec jsx ts hl)
+      apply Res.bind (pElementName_spec jsx ts)
       intro nr hnr
       obtain ⟨name, r⟩ := nr
       simp only
@@ -349,7 +346,7 @@ theorem pItem_pStatements_spec (jsx : Bool) : ∀ (fuel : Nat),
           simp only
           split
           · have hs : ts1 <:+ g :: ts1 := List.suffix_cons _ _
-            apply Res.bind (ihS ts1 ⟨.root, []⟩ [] (by simp at hf; omega) (hl.suffix hs))
+            apply Res.bind (ihS ts1 ⟨.root, []⟩ [] (by simp at hf; omega))
             intro kr hkr
             obtain ⟨kids, r2⟩ := kr
             simp only
@@ -362,12 +359,12 @@ theorem pItem_pStatements_spec (jsx : Bool) : ∀ (fuel : Nat),
               · exact Res.pure h3
             · exact Res.pure h2
           · exact Res.pure trivial
-    · intro ts cur above hf hl
+    · intro ts cur above hf
       cases ts with
       | nil => exact Res.ok (List.suffix_refl _)
       | cons t ts' =>
         unfold pStatements
-        apply Res.bind (ihI (t :: ts') (by simp at hf ⊢; omega) (by simp at hf; omega) hl)
+        apply Res.bind (ihI (t :: ts') (by simp at hf ⊢; omega) (by simp at hf; omega))
         intro it hit
         cases it with
         | none => exact Res.pure (List.suffix_refl _)
@@ -378,7 +375,7 @@ theorem pItem_pStatements_spec (jsx : Bool) : ∀ (fuel : Nat),
               Res (pStatements jsx f r' c a) (fun x => x.2 <:+ t :: ts') := by
             intro r' c a hr'
             have hlt' : Lt r' (t :: ts') := Lt.le_trans hr' hlt
-            exact (ihS r' c a (by have := hlt'.2; simp at this hf; omega) (hl.suffix hlt'.1)).mono
+            exact (ihS r' c a (by have := hlt'.2; simp at this hf; omega)).mono
               (fun x hx => hx.trans hlt'.1)
           simp only
           split
@@ -394,10 +391,10 @@ theorem pItem_pStatements_spec (jsx : Bool) : ∀ (fuel : Nat),
 
 /-- **C07, parser stage**: for every token list with non-empty literals, in both JSX modes, `parseTokens`
     returns a forest or a token error — it never runs out of fuel and never raises an internal error. -/
-theorem parseTokens_total (jsx : Bool) (ts : List Tok) (hl : LitsNE ts) :
+theorem parseTokens_total (jsx : Bool) (ts : List Tok) :
     Res (parseTokens jsx ts) (fun _ => True) := by
   unfold parseTokens
-  apply Res.bind ((pItem_pStatements_spec jsx (2 * ts.length + 2)).2 ts ⟨.root, []⟩ [] (by omega) hl)
+  apply Res.bind ((pItem_pStatements_spec jsx (2 * ts.length + 2)).2 ts ⟨.root, []⟩ [] (by omega))
   intro kr _
   obtain ⟨kids, r⟩ := kr
   simp only
